@@ -217,13 +217,19 @@ def run_optional_and_binary(rep, prog, mk, NCH, L, doc):
     finish_engine(rep, it)
     it = mk()
     dec = Decider(rep, it)
-    binf = find_fn(prog, 'deserialize_inner', inpath='conjure_http::server::conjure::')
+    # entered at the stable trait impl (the private helper behind it may be renamed or inlined by a refactoring)
+    binfs = [k for k in find_fns(prog, 'deserialize', inpath='conjure_http::server::conjure::<impl at') if 'BinaryRequestDeserializer' in impl_text(prog, k)
+             and 'async fn body' not in prog.fns[k].ret and '{closure' not in k and 'AsyncDeserializeRequest' not in impl_text(prog, k)]
+    if len(binfs) != 1:
+        raise Inconclusive(f'C06 harness: BinaryRequestDeserializer impl not found uniquely: {binfs}')
+    binf = binfs[0]
     st = St()
     ct = z3.BitVec('ct_sel', 8)
     st.pc.append(z3.ULT(ct, len(c18.CT_CHOICES)))
     resp = c18.response_value(st, z3.BitVecVal(200, 16), ct, Agg('BodyToken', ()))
     headers = st.ref(resp.fields[1])
-    for s2, rv in it.run(binf, [headers, Agg('BodyToken', ())], st, {'R': ('path', 'BodyToken', ())}):
+    rt_b = c11.runtime_value(st, ['JsonEncoding', 'SmileEncoding'])
+    for s2, rv in it.run(binf, [rt_b, headers, Agg('BodyToken', ())], st, {'R': ('path', 'BodyToken', ())}):
         rep.states += 1
         if is_abnormal(rv):
             rep.inconc(f'C06 binary: abnormal {rv!r}')
